@@ -451,6 +451,38 @@ def rule_e(ctx, out):
             else:
                 out.bad(f"gas-price:{op}", f"get_ins_cost({op!r}) = {got}; the EVM prices {op} in class W{cls} = {GAS_VALUE[cls]} gas. A wrong price makes "
                         f"the acceptance test compare the wrong quantities", "sfs_generator/opcodes.py", {"class": cls, "expected": GAS_VALUE[cls], "got": got})
+    # byte sizes: the pseudo-push items against the assembler's table; a push of n bytes is 1 + n; every other opcode is 1 byte
+    from ..specs.evm import ASM_ITEM_SIZE
+    for name, want in sorted(ASM_ITEM_SIZE.items()):
+        try:
+            got = mi.call(gs, name, None)
+        except (Unsupported, Raised) as e:
+            raise AnalysisError(f"cannot evaluate get_ins_size({name!r}): {e}")
+        if got == want:
+            out.ok({"item": name, "bytes": got})
+        else:
+            out.bad(f"item-size:{name.replace(' ', '')}", f"get_ins_size({name!r}) = {got}; the assembler emits {want} byte(s) for this item: sizes compared by the "
+                    f"acceptance test and printed as totals are off", "sfs_generator/utils.py", {"expected": want, "got": got})
+    for val, want in ((0, 2), (1, 2), (255, 2), (256, 3), (2 ** 64, 10), (2 ** 256 - 1, 33)):
+        try:
+            got = mi.call(gs, "PUSH", val)
+        except (Unsupported, Raised) as e:
+            raise AnalysisError(f"cannot evaluate get_ins_size('PUSH', {val}): {e}")
+        if got == want:
+            out.ok()
+        else:
+            out.bad(f"item-size:PUSH:{want - 1}-byte-value", f"get_ins_size('PUSH', {val}) = {got}, a push of that value takes {want} bytes", "sfs_generator/utils.py")
+    for op in sorted(STACK_ARITY):
+        if op.startswith("PUSH") or op in ASM_ITEM_SIZE or op == "ASSIGNIMMUTABLE":     # ASSIGNIMMUTABLE expands to 3 + 32 bytes per occurrence
+            continue
+        try:
+            got = mi.call(gs, op, None)
+        except (Unsupported, Raised):
+            continue
+        if got == 1:
+            out.ok()
+        else:
+            out.bad(f"item-size:{op}", f"get_ins_size({op!r}) = {got}; an opcode is one byte", "sfs_generator/utils.py")
     # nothing that executes is free
     free_ok = set(GAS_CLASS["zero"]) | {"INVALID", "ASSIGNIMMUTABLE", "MCOPY"}
     for op in sorted(STACK_ARITY):
